@@ -275,12 +275,12 @@ def h_header(X):
 def obligations(tier):
     q = tier == "quick"
     obs = [Symx("fwd-header", h_header, bounds="query and reply with 1 question, no records: id, all 16 flag bits of both messages, qtype, qclass symbolic; UDP and TCP",
-                encoded=ENCODED[:7], must_reach=["both-forwarded"], stubs=STUBS + ["DNSLayer.flows -> SymKeyDict"])]
+                encoded=ENCODED[:7], must_reach=["both-forwarded"], stubs=STUBS + ["DNSLayer.flows -> SymKeyDict"], parallel_depth=3, budget_s=1200)]
     for t in TYPES:
         obs.append(Symx(f"fwd-{t}", (lambda tn: lambda X: h_forward(X, tn, 2))(t),
                         bounds=f"UDP and TCP; question name from {len(QNAMES)} names (ASCII, IDN); reply with 1 {t} answer (+ optional companion A record in the additional section, owner compressed "
                                "against the first record's rdata name); owner compressed or not; rdata names compressed / uncompressed / mixed; opaque rdata octets, TTL (non-scanned types), "
                                "MX preference, SRV port, SOA serial (either half) fully symbolic; TXT as 1-2 character-strings of 1-3 symbolic octets or one 192-octet string",
                         encoded=ENCODED, must_reach=["query-forwarded", "reply-forwarded", "two-records", "owner-compressed"] + (["rdata-compressed"] if TYPES[t] in dnsref.LAYOUT else []),
-                        stubs=STUBS, parallel_depth=3, budget_s=240 if q else 900))
+                        stubs=STUBS, parallel_depth=3 if t in ("TXT", "MX", "SOA", "SRV") else 0, budget_s=1200 if q else 3000))
     return obs
